@@ -148,15 +148,16 @@ var (
 	// "secret1" is a device whose ID is also one of the fixture passwords, so
 	// that a check of the wrong string (user name instead of password) can
 	// succeed.
-	devIDs      = []string{"dev1", "abcd1234", "a", "z9", "DevX", "otr", "hum1", "hum2", "auto1", "secret1"}
-	devProfile  = map[string]string{"dev1": "prof1", "abcd1234": "prof1", "hum1": "prof1", "a": "prof2", "z9": "prof2", "DevX": "prof2", "hum2": "prof2", "otr": "p3", "auto1": "p3", "secret1": "p3"}
-	devHuman    = map[string]string{"hum1": "my-phone", "hum2": "tv"}
+	devIDs      = []string{"dev1", "abcd1234", "a", "z9", "DevX", "otr", "hum1", "hum2", "auto1", "secret1", "hum3"}
+	devProfile  = map[string]string{"dev1": "prof1", "abcd1234": "prof1", "hum1": "prof1", "hum3": "prof1", "a": "prof2", "z9": "prof2", "DevX": "prof2", "hum2": "prof2", "otr": "p3", "auto1": "p3", "secret1": "p3"}
+	// "tv-d" is what a label cut one label too late ("tv.d" of "otr-prof1-tv.d…") normalises to.
+	devHuman    = map[string]string{"hum1": "my-phone", "hum2": "tv", "hum3": "tv-d"}
 	devLinked   = map[string]string{"dev1": "198.51.100.1", "z9": "2001:db8::1", "hum1": "198.51.100.2"}
 	devDed      = map[string][]string{"abcd1234": {"192.0.2.10"}, "a": {"192.0.2.11", "2001:db8::2"}, "DevX": {"192.0.2.2"}}
 	profIDs     = []string{"prof1", "prof2", "p3"}
 	remoteIPs   = []string{"198.51.100.1", "198.51.100.2", "2001:db8::1", "203.0.113.9"}
 	localAddrs  = []string{"192.0.2.2:53", "192.0.2.2:5353", "192.0.2.10:53", "192.0.2.11:53", "[2001:db8::2]:53", "192.0.2.77:53"}
-	humanKeys   = []string{"my-phone", "tv", "a-b"}
+	humanKeys   = []string{"my-phone", "tv", "a-b", "tv-d"}
 	createHuman = []string{"My-Phone", "my-phone", "tv", "TV", "a-b", "A-b"}
 	createDTs   = []int{1, 9}
 )
@@ -368,7 +369,7 @@ func bindData(k int) (bd []*agd.ServerBindData, lines []string) {
 	}
 }
 
-var domainSets = [][]string{{}, {"d.dns.example"}, {"d.dns.example", "dev.example.org", "example"}}
+var domainSets = [][]string{{}, {"d.dns.example"}, {"d.dns.example", "dev.example.org", "example"}, {"doh.ki.example", "d.dns.example"}}
 
 // seen is what the handler behind all middlewares observed.
 type seen struct {
@@ -785,13 +786,16 @@ func pathRefers(urlPath string, p *agd.Profile, d *agd.Device) bool {
 }
 
 func sniRefers(sni string, domains []string, p *agd.Profile, d *agd.Device) bool {
-	low := strings.ToLower(sni)
+	// The device label is the first label of the name as sent; what follows
+	// its dot must be a configured device domain, compared without regard to
+	// case.  No byte arithmetic on the lowercased name: lowercasing changes
+	// the length of names outside ASCII.
+	label, rest, ok := strings.Cut(sni, ".")
+	if !ok || label == "" {
+		return false
+	}
 	for _, dom := range domains {
-		if dom == "" || !strings.HasSuffix(low, "."+dom) {
-			continue
-		}
-		label := sni[:len(sni)-len(dom)-1]
-		if label != "" && !strings.Contains(label, ".") && labelRefers(label, p, d) {
+		if dom != "" && strings.ToLower(rest) == dom && labelRefers(label, p, d) {
 			return true
 		}
 	}
@@ -933,7 +937,7 @@ var (
 	humanPool = []string{"my-phone", "My-Phone", "tv", "TV", "a-b", "A-b", "my--phone", "My Phone", "my---phone", "!!tv!!", "-", "---",
 		"", "a_b", "-tv-", strings.Repeat("a", 70), "a!-!b"}
 	pwPool     = []string{"secret1", "hunter2", "Pa:ss w0rd", "", "wrong", "Secret1", "secret1 "}
-	sniDomains = []string{"d.dns.example", "D.DNS.Example", "dev.example.org", "example", "dns.example", "other.example", "xd.dns.example"}
+	sniDomains = []string{"d.dns.example", "D.DNS.Example", "dev.example.org", "example", "dns.example", "other.example", "xd.dns.example", "doh.ki.example", "DOH.KI.Example"}
 	pathHeads  = []string{"/dns-query", "/resolve", "/query", "/y", "/other", "dns-query", "//dns-query", "/x/../dns-query", "/../dns-query", "/dns-query/."}
 )
 
@@ -1270,7 +1274,15 @@ func nonASCIICampaign(o *hlib.Opts, rn *runner, w *world) {
 		db := genDB(rng.IntN, randAuth(rng))
 		q := genRequest(rng, v, db)
 		x := pick(rng, weird)
-		switch rng.IntN(4) {
+		switch rng.IntN(5) {
+		case 4:
+			// A device domain spelled with letters whose lowercase form has
+			// another length in UTF-8 (KELVIN SIGN, dotted capital I).
+			lbl := genLabel(rng)
+			if rng.IntN(2) == 0 {
+				lbl = pick(rng, []string{"otr-prof1-tv", "otr-prof1-TV", "win-PROF1-tv", "otr-prof2-tv"})
+			}
+			q.sni = lbl + "." + pick(rng, []string{"doh.\u212ai.example", "DOH.\u212a\u0130.example", "doh.k\u0130.example", "doh.ki.example", "d.dns.e\u212aample"})
 		case 0:
 			q.sni = x + "." + pick(rng, sniDomains[:3])
 		case 1:
